@@ -20,6 +20,7 @@ from .explore import explore, hashseeds_for, run_seeds, summarise
 from .gen import mix
 from .minimise import Minimiser
 from .pool import HarnessError, Pool
+from .diverge import investigate
 from .replay import first_divergence
 
 HERE = os.path.dirname(os.path.dirname(os.path.abspath(__file__)))
@@ -28,9 +29,9 @@ LEVEL = {"C06": "exploration", "C07": "fault_enumeration", "C10": "exploration",
 
 TIERS = {
     "quick": {
-        "selftest": 24, "runs": {"C06": 1400, "C07": 600, "C10": 1400, "C17": 1200},
-        "explore_wall": 50, "sweeps": 32, "micropool_len": 2, "micropools": 2, "minimise_s": 45,
-        "hash_runs": 400, "hash_seeds": 2,
+        "selftest": 24, "runs": {"C06": 1400, "C07": 520, "C10": 1400, "C17": 1200},
+        "explore_wall": 50, "sweeps": 32, "micropool_len": 3, "micropools": 2, "minimise_s": 45,
+        "hash_runs": 600, "hash_seeds": 2,
     },
     "thorough": {
         "selftest": 192, "runs": {"C06": 40000, "C07": 16000, "C10": 40000, "C17": 36000},
@@ -107,35 +108,52 @@ def selftest(c):
     same_hash_div, other_hash_div = 0, 0
     for a, b, cc, s in zip(ra, rb, rc, seeds):
         da = (a["digest"], a["ndigest"])
+        job = {"kind": "seed", "run_seed": s, "property": c.prop, "tier": c.tier, "known": c.known_sigs,
+               "disabled": c.disabled}
         if da != (b["digest"], b["ndigest"]):
             same_hash_div += 1
-            step = first_divergence(a["events"], b["events"])
-            raise HarnessError(f"selftest: run seed {s} is not repeatable under the same hash seed "
-                               f"(first divergence at step {step}); results cannot be trusted")
+            settle_divergence(c, job, h1, h1, s, out)
+            break
         if da != (cc["digest"], cc["ndigest"]):
             other_hash_div += 1
-            step = first_divergence(a["events"], cc["events"])
-            out["h_divergence"] = {"run_seed": s, "step": step, "hashseeds": [h1, int(cc["worker_hashseed"])]}
-            if c.prop == "C07":
-                sc = cc["scenario"]
-                sc["ops"] = sc["ops"][: (step if step is not None else len(sc["ops"]) - 1) + 1]
-                v = {"property": "C07", "oracle": "H", "kind": "hashseed-divergence", "key": "hashseed",
-                     "step": step, "detail": f"run seed {s}: the same operation sequence gives different "
-                     f"observable outcomes under PYTHONHASHSEED={h1} and {cc['worker_hashseed']} "
-                     f"(first at step {step})"}
-                os.makedirs(REPLAY_DIR[0], exist_ok=True)
-                path = os.path.join(REPLAY_DIR[0], f"C07-H-{s}.json")
-                with open(path, "w") as fh:
-                    json.dump({"format": "designsim-replay-1", "property": "C07", "oracles": ORACLES_OF["C07"],
-                               "hashseeds": [h1, int(cc["worker_hashseed"])], "expected": v, "detail": v["detail"],
-                               "scenario": sc}, fh, indent=1)
-                c.violations.append((v, path))
+            settle_divergence(c, job, h1, int(cc["worker_hashseed"]), s, out)
             break
     out["same_hashseed_divergences"] = same_hash_div
     out["other_hashseed_divergences"] = other_hash_div
     out["pools"] = [c.workers, max(2, c.workers // 3), c.workers]
     out["distinct_other_hashseeds"] = len(set(hs))
     return out, ra
+
+
+def settle_divergence(c, job, hs_a, hs_b, run_seed, out):
+    """Two processes disagreed on the digests of one seeded run: find out who is to blame."""
+    inv = investigate(job, hs_a, hs_b, repo=c.repo, log=c.log, tries=4)
+    out["divergence"] = {k: inv.get(k) for k in ("status", "step", "detail", "hashseeds")}
+    out["divergence"]["run_seed"] = run_seed
+    if inv["status"] == "formulae":
+        same = hs_a == hs_b
+        v = {"property": "C07", "oracle": "H", "kind": "process-divergence" if same else "hashseed-divergence",
+             "key": "determinism", "step": inv["step"],
+             "detail": f"run seed {run_seed}: the same operation sequence gives different observable outcomes in two "
+                       f"interpreter processes (PYTHONHASHSEED {hs_a} and {hs_b}), first at step {inv['step']}: "
+                       f"{inv['detail']}"[:600]}
+        if c.prop != "C07":
+            raise HarnessError("formulae itself is not deterministic across processes, so no verdict on "
+                               f"{c.prop} can be trusted (this is C07's business): {v['detail']}")
+        sc = inv["scenario"]
+        sc["ops"] = sc["ops"][: inv["step"] + 1]
+        os.makedirs(REPLAY_DIR[0], exist_ok=True)
+        path = os.path.join(REPLAY_DIR[0], f"C07-H-{run_seed}.json")
+        with open(path, "w") as fh:
+            json.dump({"format": "designsim-replay-1", "property": "C07", "oracles": job.get("oracles") or ["A", "S"],
+                       "hashseeds": [hs_a, hs_b], "expected": v, "detail": v["detail"], "scenario": sc}, fh, indent=1)
+        c.violations.append((v, path))
+    elif inv["status"] == "harness":
+        raise HarnessError(f"selftest: run seed {run_seed} diverges between processes because of the harness: "
+                           f"{inv['detail']}")
+    else:
+        raise HarnessError(f"selftest: run seed {run_seed} gave different digests in two processes (hash seeds "
+                           f"{hs_a}, {hs_b}) but the difference did not reproduce in 4 fresh process pairs")
 
 
 def handle_violation(c, pool, res, found_by):
@@ -297,7 +315,7 @@ def run_hash_phase(c):
         pool = Pool(c.workers, [hs], log_path=c.log, repo=c.repo)
         try:
             res = explore(pool, "C07", c.tier, seeds, known=c.known_sigs, disabled=c.disabled,
-                          extra={"oracles": ["S"], "force": H_FORCE}, sample_first=0, prefix=f"h{hs}_")
+                          extra={"oracles": ["-"], "force": H_FORCE}, sample_first=0, prefix=f"h{hs}_")
         finally:
             pool.close()
         for r in res:
@@ -325,32 +343,11 @@ def run_hash_phase(c):
                     c.oracles = c_or
                 finally:
                     pool.close()
-    if divergent:
+    if divergent and not c.violations:
         s, ha, hb = divergent[0]
-        evs = []
-        for hs in (ha, hb):
-            pool = Pool(1, [hs], log_path=c.log, repo=c.repo)
-            try:
-                r = explore(pool, "C07", c.tier, [s], known=c.known_sigs, disabled=c.disabled,
-                            extra={"oracles": ["S"], "force": H_FORCE, "events": True, "want_scenario": True},
-                            sample_first=0, prefix="hd")[0]
-            finally:
-                pool.close()
-            evs.append(r)
-        step = first_divergence(evs[0]["events"], evs[1]["events"])
-        sc = evs[0]["scenario"]
-        if step is not None:
-            sc["ops"] = sc["ops"][: step + 1]
-        v = {"property": "C07", "oracle": "H", "kind": "hashseed-divergence", "key": "hashseed", "step": step,
-             "detail": f"run seed {s}: the same operation sequence gives different observable outcomes under "
-                       f"PYTHONHASHSEED={ha} and {hb} (first at step {step}: "
-                       f"{sc['ops'][step].get('formula') or sc['ops'][step]['op'] if step is not None else '?'})"}
-        os.makedirs(REPLAY_DIR[0], exist_ok=True)
-        path = os.path.join(REPLAY_DIR[0], f"C07-H-{s}.json")
-        with open(path, "w") as fh:
-            json.dump({"format": "designsim-replay-1", "property": "C07", "oracles": ["S"],
-                       "hashseeds": [ha, hb], "expected": v, "detail": v["detail"], "scenario": sc}, fh, indent=1)
-        c.violations.append((v, path))
+        job = {"kind": "seed", "run_seed": s, "property": "C07", "tier": c.tier, "known": c.known_sigs,
+               "disabled": c.disabled, "oracles": ["-"], "force": H_FORCE}
+        settle_divergence(c, job, ha, hb, s, out)
     print(f"hash phase: {out}", flush=True)
     return out
 
